@@ -411,6 +411,13 @@ def main():
     driver_ok = os.path.exists(os.path.join(LEAN, ".lake", "build", "bin", "oxdriver")) and built
 
     # ---------------- T and O
+    for cmd in cfg.get("pre_cmds", []):
+        with Lock("cargo"):
+            t = time.time()
+            p = sh(["bash", "-c", cmd], cwd=ROOT, stdout=subprocess.PIPE, stderr=subprocess.STDOUT)
+            res.setdefault("pre_cmds", []).append({"cmd": cmd, "rc": p.returncode, "wall_s": round(time.time() - t, 1)})
+            if p.returncode != 0:
+                broken.append({"what": "pre-command " + cmd, "detail": p.stdout.decode(errors="replace")[-1500:]})
     streams = [s for s in cfg.get("streams", []) if tier in s.get("tiers", ["quick", "thorough"])]
     with Lock("cargo"):
         groups = {}
